@@ -25,7 +25,7 @@ pub static DEF: PropDef = PropDef {
     id: "C04",
     level: "exploration",
     engine: "query",
-    rule: "one run = a generated dataset (20..120 rows, 3 metrics, nullable host label, exact-in-f64 values, timestamps placed minutes / hours / days before and slightly after the virtual now, on hour-bucket edges +-1 ns) ingested through the real Ingester with a drawn flush threshold (so the same rows land in 1..k chunks in different orders), on either catalog backend, with either timestamp column type; 6..12 generated SELECTs whose WHERE confines the timestamp to a finite window by construction (comparisons in both operand orders against integer / TIMESTAMP-literal / now()-relative bounds, BETWEEN, =, AND/OR/NOT nests, unions of windows, label predicates, projections, count/sum/min/max/avg, GROUP BY), each run cold and warm, before and after a real compaction cycle, a third of the runs over a flaky store during the query phase (failed requests, response bodies breaking part-way, delays: a query may fail then, a returned answer must still be exact), with a tiny or large L1 cache and adaptive indexing on or off; the answer must equal the same SQL on a MemTable of all ingested rows (multiset of canonically rendered rows); distinct = distinct (dataset, query text) hash; non-trivial = the reference answer is non-empty or the window straddles data",
+    rule: "one run = a generated dataset (20..120 rows, 3 metrics, nullable host label, exact-in-f64 values, timestamps placed minutes / hours / days before and slightly after the virtual now, on hour-bucket edges +-1 ns) ingested through the real Ingester with a drawn flush threshold (so the same rows land in 1..k chunks in different orders), on either catalog backend, with either timestamp column type; 6..12 generated SELECTs whose WHERE confines the timestamp to a finite window by construction (comparisons in both operand orders against integer / TIMESTAMP-literal / now()-relative bounds, BETWEEN, =, AND/OR/NOT nests, unions of windows, label predicates, projections, count/sum/min/max/avg, GROUP BY), each run cold and warm, before and after a real compaction cycle, a third of the runs over a flaky store during the query phase (failed requests, response bodies breaking part-way: a query may fail then, a returned answer must still be exact), with a tiny or large L1 cache and adaptive indexing on or off; the answer must equal the same SQL on a MemTable of all ingested rows (multiset of canonically rendered rows); distinct = distinct (dataset, query text) hash; non-trivial = the reference answer is non-empty or the window straddles data",
     quick_runs: 600,
     thorough_runs: 10_000,
     run_cap_ms: 120_000,
@@ -193,7 +193,7 @@ fn scen(_spec: RunSpec) -> ScenFut {
         }
         let compact_between = sim::w_bool(50);
         // a third of the runs query over a flaky store (requests failing before / after the effect, response bodies
-        // breaking part-way, delays): such a query may fail, it may never return a wrong answer
+        // breaking part-way): such a query may fail, it may never return a wrong answer
         let flaky = sim::w(3) == 2;
         if flaky {
             let b = 1 + sim::w(3);
@@ -201,8 +201,7 @@ fn scen(_spec: RunSpec) -> ScenFut {
                 c.fail_before_pm = 30;
                 c.fail_after_pm = 10;
                 c.body_break_pm = 30;
-                c.delay_pm = 10;
-                c.delay_ms = vec![1, 100];
+                // no delays here: the statements' now()-relative bounds were rendered against a clock that stands still
                 c.fault_budget = b;
             });
         }
@@ -246,6 +245,9 @@ fn scen(_spec: RunSpec) -> ScenFut {
                     any_nonempty = true;
                 }
                 for temp in ["cold", "warm"] {
+                    if sim::wall_ns() != now && sql.contains("now()") {
+                        continue;
+                    }
                     let f0 = faults_so_far();
                     let got = qn.query(sql).await;
                     hist.push_str(sql);
